@@ -25,6 +25,7 @@ MODELLED = {
     'ConditionalExpressionTransformer': 'ifexp',
     'LogicalExpressionTransformer': 'logical',
     'VariableAccessTransformer': 'variables',
+    'SliceTransformer': 'slices',
 }
 
 _state = {'pending': None, 'skip_seen': 0, 'installed': False}
@@ -119,8 +120,15 @@ def feature_subsets(with_lists=False):
 
 
 def configs(with_lists=False):
-    """Every option subset of {BUILTIN_FUNCTIONS, EQUALITY_OPERATORS} (+LISTS) x recursive in {T, F}."""
-    return [(rec, fs) for fs in feature_subsets(with_lists) for rec in (True, False)]
+    """ids 0..7: every option subset of {BUILTIN_FUNCTIONS, EQUALITY_OPERATORS} x recursive in {T, F};
+    ids 8, 9: two configurations with LISTS (lists.py / slices.py in the pipeline)."""
+    converter = _malt()[0]
+    F = converter.Feature
+    base = [(rec, fs) for fs in feature_subsets(False) for rec in (True, False)]
+    return base + [(True, (F.LISTS,)), (False, (F.BUILTIN_FUNCTIONS, F.EQUALITY_OPERATORS, F.LISTS))]
+
+
+NCFG_BASE = 8
 
 
 def make_options(rec, fs, user_requested=True):
@@ -146,6 +154,7 @@ NEEDED = {
     'ifexp': ('test_repr',),
     'logical': (),
     'variables': ('orig_defs',),
+    'slices': (),
 }
 
 
@@ -170,6 +179,8 @@ def request(rec, tr, options, generated_before):
                                                sexp(list(generated_before)), sexp(opts_sexp(options)))
     if op == 'calltrees':
         return 'c04.calltrees %s %s %s' % (sexp(rec.before), sexp(annos), sexp(bool(options.uses(_malt()[0].Feature.BUILTIN_FUNCTIONS))))
+    if op == 'slices':
+        return 'c04.slices %s' % sexp(rec.before)
     if op == 'logical':
         return 'c04.logical %s %s' % (sexp(rec.before), sexp(bool(options.uses(_malt()[0].Feature.EQUALITY_OPERATORS))))
     return 'c04.%s %s %s' % (op, sexp(rec.before), sexp(annos))
@@ -220,7 +231,7 @@ def compare(rec, tr, answer):
         got = ('error', answer[6:])
         if exp[0] == 'error':
             # only the directives model predicts error kinds; the others only "some assertion/lookup failed"
-            ok = (exp[1] == got[1]) if op == 'directives' else True
+            ok = (exp[1] == got[1]) if op in ('directives', 'slices') else True
             return ok, '' if ok else 'error kind: code %s model %s' % (exp[1], got[1])
         return False, 'model fails (%s), code succeeds' % got[1]
     try:
